@@ -285,3 +285,40 @@ func (e *Engine) callersObligations(prop string) []*Obligation {
 	_ = prop
 	return out
 }
+
+// Statelessness of a shared evaluator type:
+//
+//   //@ stateless[Cxx] <pkg/path.Type>
+//
+// the struct type has no fields: one instance of it serves every (also nested) evaluation, so
+// nothing can be carried over from one evaluation to another.  (`<type>/frame:stateless#0`)
+type StatelessClause struct {
+	Tags []string
+	Type string
+}
+
+func (e *Engine) statelessObligations(prop string) []*Obligation {
+	var out []*Obligation
+	sc := newScript()
+	for _, c := range e.stateless {
+		goal, desc := "true", c.Type+" has no fields (a shared evaluator instance carries no state)"
+		t := e.typeByString(c.Type)
+		if t == nil {
+			goal, desc = "false", "stateless clause names an unknown type "+c.Type
+		} else if st, ok := t.Underlying().(*types.Struct); !ok {
+			goal, desc = "false", c.Type+" is not a struct type"
+		} else if st.NumFields() > 0 {
+			var fs []string
+			for i := 0; i < st.NumFields(); i++ {
+				fs = append(fs, st.Field(i).Name())
+			}
+			goal = "false"
+			desc += "; but it has the fields " + strings.Join(fs, ", ")
+		}
+		ob := &Obligation{Name: c.Type + "/frame:stateless#0", Kind: "frame", Func: c.Type, Goal: goal, Desc: desc, Claimed: true, Tags: c.Tags}
+		sc.oblige(ob)
+		out = append(out, ob)
+	}
+	_ = prop
+	return out
+}
